@@ -32,7 +32,8 @@ pub mod buffer {
         }
         pub fn punct(self) -> Option<(Punct, Cursor<'a>)> {
             let t = self.toks.get(self.pos)?;
-            if t.kind == 1 {
+            // syn: the `'` of a lifetime is not reported as a punct
+            if t.kind == 1 && t.ch != b'\'' {
                 Some((Punct { ch: t.ch as char, spacing: if t.joint { Spacing::Joint } else { Spacing::Alone }, idx: self.pos as u32 },
                       Cursor { toks: self.toks, pos: self.pos + 1 }))
             } else { None }
